@@ -244,6 +244,7 @@ func dropHomomorphicIndexes(_ *zap.Logger, _ *bbolt.Tx, b *bbolt.Bucket, _ cid.I
 		keysToDrop   [][]byte
 	)
 	attrIDPrefix = append(attrIDPrefix, []byte(object.FilterPayloadHomomorphicHash)...)
+	attrIDPrefix = append(attrIDPrefix, objectcore.MetaAttributeDelimiter...) // exactly this attribute, not a key prefix
 	k, _ = c.Seek(attrIDPrefix)
 	for ; bytes.HasPrefix(k, attrIDPrefix); k, _ = c.Next() {
 		keysToDrop = append(keysToDrop, k)
